@@ -4,7 +4,7 @@ from symx.lib import *  # noqa
 
 META = {
     "bounds": {
-        "quick": "shapes of <=2 notes (+TS/KS, also signatures that repeat the one in force and adjacent waits), waits 1..24, pad n 0..120, cutoff m 1..40 r 0..m, scale k in 1..8 (concrete), channel 0..15",
+        "quick": "shapes of <=2 notes (+TS/KS, also signatures that repeat the one in force and adjacent waits), waits 1..24, pad n 0..120, cutoff m 1..40 r 0..m, scale k in 1..8 (concrete) and k symbolic 2..8 (non-linear), channel 0..15",
         "thorough": "shapes of <=3 notes (+TS/KS), waits 1..32, pad n 0..200, cutoff m 1..64, scale k 1..8, channel 0..15",
     },
     "outside_claim": ["more than 3 notes", "scale with quantise_afterwards=True (a different contract)",
@@ -103,6 +103,24 @@ def q_scale(shape, wmax, k):
                  desc=f"scale({k}, quantise_afterwards=False) on shape {shape}")
 
 
+def q_scale_symbolic(shape, wmax, kmax):
+    """the scale factor itself symbolic (non-linear integer arithmetic: sym x sym)"""
+    def fn(ctx):
+        b = build_rel(ctx, SHAPES[shape], pitch=(60, 61), chan=(0, 1), wait=(1, wmax))
+        _wf(ctx, b)
+        k = ctx.int("k", 2, kmax)    # k = 1 takes the 1/factor branch (division by a symbolic value); covered by the concrete split
+        exp = [Ev(e.t * k, e.m.copy()) for e in b.all_events]
+        seq = rel_sequence(b.msgs)
+        seq.scale(k, quantise_afterwards=False)
+        er, dr, ea, da = _views(seq)
+        ctx.must("scale_events_rel", events_eq_positionwise(er, exp))
+        ctx.must("scale_events_abs", events_eq_multiset_timed(ea, exp))
+        ctx.must("scale_duration", and_(eq(dr, b.total * k), eq(da, b.total * k)))
+        return [obs_events(er, dr), obs_events(ea, da)]
+    return Query(f"scale_symbolic/{shape}/w{wmax}k2..{kmax}", fn, ["scale_events_rel", "scale_events_abs", "scale_duration"],
+                 desc=f"scale(k) with symbolic k on shape {shape}")
+
+
 def q_set_channel(shape, wmax, fresh):
     def fn(ctx):
         b = build_rel(ctx, SHAPES[shape], pitch=(60, 61), chan=(0, 1), wait=(1, wmax))
@@ -145,4 +163,6 @@ def queries(tier, seed):
             if tier == "quick" and k not in (1, 2, 3, 8) and s not in ("n2ov",):
                 continue
             qs.append(q_scale(s, wmax, k))
+    for s in (("n1t", "n2ov") if tier == "quick" else ("n1t", "n2ov", "n2rep", "n3")):
+        qs.append(q_scale_symbolic(s, 12, 8))
     return qs
